@@ -59,6 +59,10 @@ func runC03(r *an.Run) {
 	// window into a reader's buffer that later reads overwrite
 	noTransientBufferRetained(r, "R12-kept-text-is-not-a-window-into-a-read-buffer")
 	bothSidesSeeTheSameDeclarations(r, "R13-both-sides-read-names-by-the-same-declarations")
+	// a site can only be rewritten if it is found: the traversal visits every node, also below a node that matched
+	// (a site inside the code an outer site carries over through "..." is a site of its own)
+	c01Traversal(r)
+	relabel(r, "R1-traversal-complete", "R14-every-site-is-found")
 }
 
 func c03Siblings(r *an.Run) {
